@@ -229,7 +229,16 @@ impl<'a> Gen<'a> {
         if depth == 0 {
             return self.gen_scalar_ty();
         }
-        match self.tape.weighted(&[6, 3, 2, 2, 1]) {
+        match self.tape.weighted(&[6, 3, 2, 2, 1, if depth >= 2 { 1 } else { 0 }]) {
+            5 => {
+                // a struct value with one or two fields (read back through field access)
+                let mut fs = std::collections::BTreeMap::new();
+                fs.insert(NAMES[self.tape.below(4)].to_string(), self.gen_scalar_ty());
+                if self.tape.bool() {
+                    fs.insert("n".to_string(), Ty::Int);
+                }
+                Ty::Struct(fs)
+            }
             0 => self.gen_scalar_ty(),
             1 => Ty::arr(self.gen_scalar_ty()),
             2 => {
